@@ -35,7 +35,18 @@ def gen_cases(tier):
         pairs.append((rng.choice(inv), rng.choice(inv)))
         if tier == "quick":
             pairs = rng.sample(pairs, 6)
-        cases.append({"id": i + 1, "raw": d, "pairs": pairs})
+        allv = inv + outv
+        a, b = rng.choice(allv), rng.choice(allv)
+        lists = [
+            [(a, "tmp_v"), (b, a), ("tmp_v", b)],                      # swap through a temporary name
+            [(a, "tmp_v"), ("tmp_v", a)],                              # there and back
+            [(a, "n1"), ("n1", "n2"), ("n2", "n3")],                   # chain through names created on the way
+            [(rng.choice(inv), rng.choice(outv)), (a, "n1")],          # clash in the first step
+            [(a, "n1"), ("absent", "n2"), (b, b)],
+        ]
+        if tier == "quick":
+            lists = rng.sample(lists, 3)
+        cases.append({"id": i + 1, "raw": d, "pairs": pairs, "lists": lists})
     return cases
 
 
@@ -45,6 +56,10 @@ def run_case(case):
         if case.get("only_event") and case["only_event"] != j:
             continue
         evs.append(ops.ev_rename(gen.mk_contract(case["raw"]), s, t, ["faithful", "itf"]))
+    for j, maps in enumerate(case.get("lists", []), len(case["pairs"]) + 1):
+        if case.get("only_event") and case["only_event"] != j:
+            continue
+        evs.append(ops.ev_renames(gen.mk_contract(case["raw"]), maps, ["faithful", "itf"]))
     return {"id": case["id"], "ev": evs}
 
 
@@ -55,5 +70,5 @@ def main(tier, replay=None):
         "source absent, source = target; TLC computes the substituted contract itself (coefficient addition) and demands "
         "semantic equality; non-trivial = source occurs in the contract and the call returned",
         replay=replay,
-        nontrivial=lambda ev: ev["exc"] == "none" and ev["s"] in (ev["c1"]["inv"] + ev["c1"]["outv"]) and ev["s"] != ev["t"],
+        nontrivial=lambda ev: ev["exc"] == "none" and (ev["op"] == "renames" or (ev["s"] in (ev["c1"]["inv"] + ev["c1"]["outv"]) and ev["s"] != ev["t"])),
     )
